@@ -45,8 +45,8 @@ macro_rules! any_enum {
 pub type MapN<const N: usize> = Map<Key, Val, N>;
 pub type SetN<const N: usize> = Set<Key, N>;
 
-any_enum!(AnyMap, MapN, C0 = 0, C1 = 1, C2 = 2, C3 = 3, C4 = 4, C6 = 6, C300 = 300);
-any_enum!(AnySet, SetN, C0 = 0, C1 = 1, C2 = 2, C3 = 3, C4 = 4, C6 = 6, C300 = 300);
+any_enum!(AnyMap, MapN, C0 = 0, C1 = 1, C2 = 2, C3 = 3, C4 = 4, C6 = 6, C64 = 64, C300 = 300);
+any_enum!(AnySet, SetN, C0 = 0, C1 = 1, C2 = 2, C3 = 3, C4 = 4, C6 = 6, C64 = 64, C300 = 300);
 
 #[macro_export]
 macro_rules! with_map {
@@ -58,6 +58,7 @@ macro_rules! with_map {
             $crate::regs::AnyMap::C3($b) => $body,
             $crate::regs::AnyMap::C4($b) => $body,
             $crate::regs::AnyMap::C6($b) => $body,
+            $crate::regs::AnyMap::C64($b) => $body,
             $crate::regs::AnyMap::C300($b) => $body,
         }
     };
@@ -73,6 +74,7 @@ macro_rules! with_set {
             $crate::regs::AnySet::C3($b) => $body,
             $crate::regs::AnySet::C4($b) => $body,
             $crate::regs::AnySet::C6($b) => $body,
+            $crate::regs::AnySet::C64($b) => $body,
             $crate::regs::AnySet::C300($b) => $body,
         }
     };
